@@ -55,6 +55,14 @@ theorem fn_uniform (fn : Fn) : Uniform fn.apply (fnLen fn) := by
   · exact cumsum_length 0 l
   · simp [List.length_zipWith]
 
+/-- **C03 (shape).** Applying any modelled function along axis `k` of an array of shape `sh` (no empty axis) gives an
+array whose axis `k` has the function's output length (1 for the named reducers: the axis is kept) and whose
+other axes are unchanged — for every rank and every axis. -/
+theorem apply_shape (fn : Fn) (sh : List Nat) (k : Nat) (a : Arr Cell) (h : hasShape sh a = true)
+    (hp : AllPos sh) (hk : k < sh.length) :
+    hasShape (sh.set k (fnLen fn (sh.getD k 0))) (mapFibers fn.apply sh k a) = true :=
+  mapFibers_hasShape fn.apply (fnLen fn) (fn_uniform fn) sh k a h hp hk
+
 /-- **masked cells are excluded** by the reducers as numpy.ma does: sum and mean run over the
 unmasked cells only; an all-masked fiber gives a masked result -/
 theorem reducers_exclude_masked (l : List Cell) :
